@@ -79,7 +79,8 @@ let handle (x : Sexp.t) : string =
            set_fail "simplified-system-has-another-verdict"
              (Printf.sprintf "bmc_spec: original %s, simplified %s" (show_expected expected) (show_expected e2))
      | None -> ());
-    let n_runs = ref 0 and n_notrun = ref 0 in
+    let n_runs = ref 0 and n_notrun = ref 0 and n_tie = ref 0 in
+    let wit_diff = ref None in
     List.iter (fun r ->
         let the_sys = if r.r_simp = "simplified" then (match simp_sy with Some s -> s | None -> sy) else sy in
         let mismatch what =
@@ -95,8 +96,14 @@ let handle (x : Sexp.t) : string =
             if expected <> None then set_fail "verdict:missed-counterexample" (snd (mismatch "Success"))
         | Sexp.List [Sexp.Atom "unknown"] ->
             incr n_runs; set_fail "verdict:unknown" (snd (mismatch "Unknown"))
-        | Sexp.List (Sexp.Atom "fail" :: w :: _) ->
+        | Sexp.List (Sexp.Atom "fail" :: w :: rest) ->
             incr n_runs;
+            (match queries_of_fail rest with
+             | Some qs ->
+                 (match witness_tie ~exact_bad_names:(r.r_simp <> "simplified") the_sys nm w qs with
+                  | Some d -> if !wit_diff = None then wit_diff := Some (Printf.sprintf "%s: %s" (run_tag r) d)
+                  | None -> incr n_tie)
+             | None -> ());
             let len = List.length (witness_of_sexp w).w_inputs in
             (match expected with
              | None -> set_fail "verdict:spurious-counterexample" (snd (mismatch (Printf.sprintf "Fail with %d steps" len)))
@@ -126,11 +133,14 @@ let handle (x : Sexp.t) : string =
     match !fail with
     | Some (key, d) -> Registry.result ~id ~status:"fail" ~key ~detail:d ()
     | None ->
+      match !wit_diff with
+      | Some d -> Registry.result ~id ~status:"diff" ~key:"witness-differs-from-model" ~detail:d ()
+      | None ->
       match loop_check fs sy k with
       | Some d -> Registry.result ~id ~status:"diff" ~key:"loop-differs-from-model" ~detail:d ()
       | None ->
         Registry.result ~id ~status:"ok" ~key:(match expected with Some _ -> "reachable" | None -> "unreachable")
-          ~detail:(Printf.sprintf "%s; %d runs agree, %d not run" (show_expected expected) !n_runs !n_notrun) ()
+          ~detail:(Printf.sprintf "%s; %d runs agree, %d not run; %d witnesses equal to the model's get_witness" (show_expected expected) !n_runs !n_notrun !n_tie) ()
   end
 
 let () = Registry.register "C02" handle
